@@ -42,6 +42,10 @@ fn main() {
             let tier = Tier::parse(args.get(4).map(|s| s.as_str()).unwrap_or("quick"));
             let mut ctx = RunCtx::new(seed, tier);
             ctx.verbose = true;
+            if let (Some(b), Some(i)) = (args.get(5), args.get(6)) {
+                ctx.base = b.parse().unwrap_or(0);
+                ctx.index = i.parse().unwrap_or(0);
+            }
             let r = runner::run_one(prop, &ctx);
             println!("{:#?}", r);
             if r.violation.is_some() { 1 } else { 0 }
